@@ -2128,23 +2128,24 @@ class ISLaSolver:
                 }
 
                 if bind_expr_paths:
-                    if assertions_activated():
-                        dangling_bind_expr_vars = [
-                            (var, path)
-                            for var, path in bind_expr_paths.items()
-                            if (
-                                var
-                                in existential_formula.bind_expression.bound_variables()
-                                and insertion_result.find_node(
-                                    inserted_tree.get_subtree(path)
-                                )
-                                is None
+                    dangling_bind_expr_vars = [
+                        (var, path)
+                        for var, path in bind_expr_paths.items()
+                        if (
+                            var in existential_formula.bind_expression.bound_variables()
+                            and insertion_result.find_node(
+                                inserted_tree.get_subtree(path)
                             )
-                        ]
-                        assert not dangling_bind_expr_vars, (
-                            f"Bound variables from match expression not found in tree: "
-                            f"[{' ,'.join(map(repr, dangling_bind_expr_vars))}]"
+                            is None
                         )
+                    ]
+
+                    if dangling_bind_expr_vars:
+                        # The insertion filled an open leaf of the inserted tree to
+                        # which the match expression binds a variable (e.g., by
+                        # moving a part of the original tree there). That variable
+                        # would not refer to any node of the result.
+                        continue
 
                     variable_substitutions.update(
                         {
